@@ -265,3 +265,21 @@ Fixpoint drive (fuel : nat) (s : xst) : option (list (ttype * sl * xst)) :=
       | _ => rest <- drive k (snd r) ;; Some (r :: rest)
       end
   end.
+
+(* The state after n calls of Next, whatever they returned (a caller that keeps calling after an
+   ErrorToken included); None = some call panicked. *)
+Fixpoint after (n : nat) (s : xst) : option xst :=
+  match n with
+  | O => Some s
+  | S k => r <- next s ;; after k (snd r)
+  end.
+
+(* the results of the first n calls *)
+Fixpoint run (n : nat) (s : xst) : option (list (ttype * sl * xst)) :=
+  match n with
+  | O => Some []
+  | S k => r <- next s ;; rest <- run k (snd r) ;; Some (r :: rest)
+  end.
+
+(* s is a state the lexer can be in while lexing d *)
+Definition reach (d : list Z) (s : xst) : Prop := exists n, after n (xml_init d) = Some s.
